@@ -340,6 +340,72 @@ fn run_case(target: &str, seed: u64, len: usize) -> (String, String) {
                 }
             }
         }
+        t if t.starts_with("Converter::") || t.starts_with("MulHz::") || t.starts_with("Floor::") || t.starts_with("Linear::") => {
+            use dasp_interpolate::{floor::Floor, linear::Linear, Interpolator};
+            // dyadic ratios: the f64 accumulator is exact, so floor(P_n) can be compared exactly
+            let ratios = [0.25f64, 0.5, 0.75, 1.0, 1.5, 2.0, 3.0, 0.125];
+            let r0 = ratios[(seed % 8) as usize];
+            let varying = t.starts_with("MulHz::");
+            let data: Vec<[f64; 1]> = (0..len + 2).map(|i| [((i as f64) * 0.0625) - 0.25 + (seed % 5) as f64 * 0.03125]).collect();
+            let n_out = 2 * len + 6;
+            let rs: Vec<f64> = (0..n_out).map(|k| if varying { ratios[((seed as usize) + 3 * k) % 8] } else { r0 }).collect();
+            let linear = seed % 2 == 1 || t.starts_with("Linear::");
+            // priming: floor takes 1 frame, linear takes 2
+            let prime = if linear { 2 } else { 1 };
+            let (mut sa, ca) = src(data.clone());
+            let at1 = |i: usize| -> f64 { if i < data.len() { data[i][0] } else { 0.0 } };
+            macro_rules! run_conv { ($interp:expr) => {{
+                let interp = $interp;
+                if varying {
+                    let ctl = signal::from_iter(rs.clone().into_iter());
+                    let mut conv = sa.mul_hz(interp, ctl);
+                    let mut p = 0.0f64;
+                    for k in 0..n_out {
+                        // with mul_hz the ratio for output k is set BEFORE the frame is produced; P_k sums the ratios of earlier outputs
+                        let fl = p.floor() as usize;
+                        let x = p - p.floor();
+                        let w = if linear { at1(fl) + (at1(fl + 1) - at1(fl)) * x } else { at1(fl) };
+                        rec!(conv.next()[0], w);
+                        rec!(ca.get(), prime + fl);
+                        p += rs[k];
+                    }
+                } else {
+                    let mut conv = sa.scale_hz(interp, r0);
+                    let mut p = 0.0f64;
+                    for _k in 0..n_out {
+                        let fl = p.floor() as usize;
+                        let x = p - p.floor();
+                        rec!(conv.is_exhausted(), ca.get() >= data.len() && (p - ((ca.get() - prime) as f64)) >= 1.0);
+                        let w = if linear { at1(fl) + (at1(fl + 1) - at1(fl)) * x } else { at1(fl) };
+                        rec!(conv.next()[0], w);
+                        rec!(ca.get(), prime + fl);
+                        p += r0;
+                    }
+                }
+            }}; }
+            if linear {
+                let a0 = sa.next(); let b0 = sa.next();
+                let mut li = Linear::new(a0, b0);
+                // reset / feed behave as specified
+                let mut probe = Linear::new([1.0f64], [3.0]);
+                rec!(probe.interpolate(0.25)[0], 1.5);
+                probe.next_source_frame([5.0]);
+                rec!(probe.interpolate(0.5)[0], 4.0);
+                probe.reset();
+                rec!(probe.interpolate(0.5)[0], 0.0);
+                let _ = &mut li;
+                run_conv!(li);
+            } else {
+                let a0 = sa.next();
+                let mut probe = Floor::new([1.0f64]);
+                rec!(probe.interpolate(0.75)[0], 1.0);
+                probe.next_source_frame([5.0]);
+                rec!(probe.interpolate(0.0)[0], 5.0);
+                probe.reset();
+                rec!(probe.interpolate(0.5)[0], 0.0);
+                run_conv!(Floor::new(a0));
+            }
+        }
         _ => {}
     }
     (got.join(" | "), want.join(" | "))
@@ -350,7 +416,7 @@ const TARGETS: &[&str] = &[
     "OffsetAmpPerChannel::next", "Map::next", "ZipMap::next", "Inspect::next", "ClipAmp::next", "Delay::next",
     "RefMut::next", "FromIterator::next", "FromInterleavedSamplesIterator::next", "UntilExhausted::next",
     "Take::next", "IntoInterleavedSamples::next_sample", "Buffered::next", "Buffered::next_frames",
-    "BranchRefA::next", "BranchRcA::next",
+    "BranchRefA::next", "BranchRcA::next", "Converter::next", "MulHz::next", "Linear::interpolate",
 ];
 
 fn field<'a>(js: &'a str, k: &str) -> &'a str {
